@@ -197,7 +197,7 @@ impl RawArgs {
     /// Advance the cursor, returning a raw argument value.
     pub fn next_os(&self, cursor: &mut ArgCursor) -> Option<&OsStr> {
         let next = self.items.get(cursor.cursor).map(|s| s.as_os_str());
-        cursor.cursor = cursor.cursor.saturating_add(1);
+        cursor.cursor = cursor.cursor.saturating_add(1).min(self.items.len());
         next
     }
 
